@@ -1,7 +1,7 @@
 # /verif top-level: `make setup` builds the Coq development (full .vo build), extracts the
 # executable models and compiles the OCaml drivers. No C++ here: harnesses are rebuilt
 # by every check from /repo's current working tree.
-.PHONY: selfcheck setup coq ocaml clean coqproject
+.PHONY: selfcheck setup coq ocaml clean coqproject coqchk
 setup: coq ocaml selfcheck
 
 # no Axiom/Parameter/Admitted/admit, no kernel check switched off, Variables only inside sections
@@ -18,6 +18,10 @@ coq:
 	python3 tools/leafgen.py
 	$(MAKE) coqproject
 	cd coq && coq_makefile -f _CoqProject -o Makefile.coq >/dev/null && timeout 3000 $(MAKE) -f Makefile.coq -j16
+
+# independent re-check of the twenty property files and everything they depend on; prints the axioms relied on (about a minute)
+coqchk: coq
+	cd coq && timeout 3000 coqchk -o -silent -Q . EV $$(ls Properties_C*.v | sed 's/\.v$$//; s/^/EV./')
 
 # Extract*.v write ocaml/gen/<domain>_model.ml(i); one driver per domain
 ocaml: coq
